@@ -25,11 +25,13 @@ def subslice (len cap low : Int) (high max : Option Int) : Option (Int × Int ×
   else some (high - low, max - low, low)
 
 /-- `$substring(str, low, high)` (prelude.js:188-193); the compiler passes `str.length` style
-    defaults itself: `s[lo:]` → `$substring(s, lo)` where `high === undefined` makes every comparison false. -/
-def substring (len low : Int) (high : Option Int) : Option (Int × Int) :=
+    defaults itself: `s[lo:]` → `$substring(s, lo)` where `high === undefined` makes every comparison false.
+    Result: length of the substring. -/
+def substring (len low : Int) (high : Option Int) : Option Int :=
   match high with
-  | some high => if low < 0 || high < low || high > len then none else some (low, high)
-  | none => if low < 0 then none else some (low, len)   -- `undefined < low`, `undefined > len` are false
+  | some high => if low < 0 || high < low || high > len then none else some (high - low)
+  -- `undefined < low`, `undefined > len` are false; `str.substring(low)` clamps low to the length
+  | none => if low < 0 then none else some (if low > len then 0 else len - low)
 
 /-- `$makeSlice(typ, length, capacity = length)` (types.js:675-691) -/
 def makeSlice (length : Int) (capacity : Option Int) : Option (Int × Int) :=
